@@ -27,7 +27,15 @@ JUNK = [None, "", 0, -1, 1.5, True, [], {}, "junk", ["junk"], {"junk": 1}, {"$re
         {"$ref": "https://remote.example/x.json#/a"}, {"$ref": "#"}, {"$ref": "#/components/schemas/"}, "\udcff" if False else "é\u0000",
         [None], {"type": "object", "properties": None}, {"type": ["string", "nonsense"]}, 10 ** 30,
         # numbers YAML can write and JSON cannot, numbers too large for float()/int(), a time that rolls over the last year, a reference with a malformed host
-        float("inf"), float("nan"), 10 ** 400, "1e400", "9999-12-31T24:00", {"$ref": "//[x"}, {"type": []}, {"const": "x"}]
+        float("inf"), float("nan"), 10 ** 400, "1e400", "9999-12-31T24:00", {"$ref": "//[x"}, {"type": []}, {"const": "x"},
+        # references whose fragment carries percent-escapes: not UTF-8, truncated, bare, valid-but-dangling; JSON-pointer escapes; non-ASCII
+        {"$ref": "#/components/schemas/Caf%E9"}, {"$ref": "#/components/schemas/%FF%C3"}, {"$ref": "#/components/schemas/a%20b%"}, {"$ref": "#/components/schemas/~0~1~2"},
+        {"$ref": "#/components/schemas/\u00e9\u2028"}]
+# keys that carry the document's structure: in quick mode every such node of every document gets the small structural menu below (an empty
+# map / list / null / empty string where a populated one is expected), sampled nodes get the full menu
+STRUCT_KEYS = {"content", "schema", "$ref", "items", "enum", "required", "properties", "parameters", "allOf", "oneOf", "anyOf", "type", "default", "responses", "requestBody",
+               "additionalProperties", "const", "prefixItems", "name", "in", "schemas", "paths", "components", "info", "tags", "security", "headers", "format"}
+STRUCT_MENU = [JUNK.index({}), JUNK.index([]), JUNK.index(None), JUNK.index(""), JUNK.index("junk"), JUNK.index(0)]
 
 
 def crash_site(exc: str) -> str:
@@ -196,6 +204,15 @@ def corruption(rep, rnd, quick: bool, d: Path) -> None:
             if path:
                 jobs.append((("one", name, path, "del"), f"{name}#/{'/'.join(map(str, path))}:deleted"))
                 jobs.append((("one", name, path, "dup"), f"{name}#/{'/'.join(map(str, path))}:duplicated"))
+    targeted = []
+    for name, doc in {**small, **docs}.items():
+        for path in _nodes(doc):
+            if path and path[-1] in STRUCT_KEYS:
+                for j in STRUCT_MENU:
+                    targeted.append((("one", name, path, j), f"{name}#/{'/'.join(map(str, path))}={json.dumps(JUNK[j], default=str)[:40]}"))
+    if quick and len(targeted) > 12000:
+        targeted = rnd.sample(targeted, 12000)
+    rep.extra["structural_corruptions"] = len(targeted)
     # random k-subsets on the small documents
     for name, doc in small.items():
         nodes = [p for p in _nodes(doc) if p]
@@ -204,6 +221,7 @@ def corruption(rep, rnd, quick: bool, d: Path) -> None:
             jobs.append((("multi", name, steps), f"{name}#multi:{'+'.join('/'.join(map(str, p)) for p, _ in steps)}"))
     if quick and len(jobs) > 9000:
         jobs = rnd.sample(jobs, 9000)
+    jobs = jobs + [t for t in targeted if t not in set(jobs)] if len(targeted) < 2000 else jobs + targeted
     gjobs = [(("one", "typed", path, j), label) if path is not None else (("doc", "typed"), label) for (path, j, label) in gspecs]
     with mp.get_context("fork").Pool(NCPU - 2) as pool:
         res = pool.map(_parse_job, jobs, chunksize=50)
